@@ -44,9 +44,6 @@ FIELD_TABLE = {
     ('Element', 'evaluation_stack_height_when_pushed'):
         'only meaningful for the host-evaluation frame, which cannot be live at a save point '
         '(evaluate_function holds &mut Story)',
-    ('Element', 'function_start_in_output_stream'):
-        'index into the output stream of the line being built; the output stream is reset by the next continue, '
-        'so the value is stale at every save point (reference engine does not save it either)',
     ('Choice', 'obj'): 'runtime object header (parent/path cache), not state',
     ('Choice', 'thread_at_generation'): 'written separately under choiceThreads / restored from the live call stack',
     ('Choice', 'target_path'): 'written as targetPath (to_string), read by the constructor',
@@ -174,6 +171,73 @@ def run(chk, prog):
         a = prog.adts.get({'Choice': 'bladeink::choice::Choice', 'Flow': 'bladeink::flow::Flow'}.get(s_, '')) or prog.adt(s_)
         if a is None or f_ not in [x['n'] for x in a['variants'][0]['fields']]:
             chk.note('C02 field table entry is stale: %s::%s' % (s_, f_))
+
+    # ---- 2a. values are written in a form the reader takes back, and read back through the engine's own door
+    R2a = 'C02.values-survive-the-text-form'
+    chk.rule(R2a, '(a) a float handed to the JSON writer has been made finite first (clamp + NaN test): serde_json writes '
+             'an infinity or NaN as null and the loader rejects the whole save; (b) the loaded evaluation stack is filled '
+             'through push_evaluation_stack (which resolves list origins), never assigned as a whole; (c) the "equal to '
+             'its default, do not save" test compares the origin names of lists too; (d) write_ink_list takes the origin '
+             'names from get_origin_names only, not from the resolved-origins cache (InkList::origins), which can still '
+             'hold the lists of an earlier value.')
+    wro = prog.fn('json_write::write_rtobject')
+    if chk.anchor(R2a, 'json_write::write_rtobject', wro):
+        lt2 = Tracer(prog, transparent=lambda cs: True, use_summaries=False)
+        conv = []
+        for gfn in prog.with_closures(wro):
+            for bb, t in gfn.calls():
+                cs = callee_short(t)
+                targs = ' '.join(t['f'].get('targs', []) or [])
+                st = t['f'].get('self', '') or ''
+                if ('f32' in targs.split() or st == 'f32' or 'f32' in targs) and \
+                        (cs.endswith('to_value') or cs.endswith('::from') or cs.endswith('::into')
+                         or cs.endswith('serialize')) and t['args']:
+                    conv.append((gfn, bb, lt2.prov(gfn, t['args'][0])))
+        if chk.anchor(R2a, 'conversion of an f32 to a JSON value in write_rtobject', conv):
+            for i, (gfn, bb, at) in enumerate(conv):
+                ok = any(a.split(':', 1)[-1].endswith('f32::clamp') for a in at) and \
+                    any(callee_short(t2) == 'f32::is_nan' for _, t2 in wro.calls())
+                chk.decide(R2a, chk.key(R2a, 'float-made-finite', '#%d' % i), ok,
+                           'the float passes through clamp (and NaN is tested) before it becomes JSON',
+                           'write_rtobject hands a float to the JSON writer as it is: an infinite or NaN value is saved '
+                           'as null and load_state rejects the save', gfn.loc(bb))
+    ljo = prog.fn('StoryState::load_json_obj')
+    if chk.anchor(R2a, 'StoryState::load_json_obj', ljo):
+        whole = []
+        for gfn in prog.with_closures(ljo):
+            for bb, si, st_ in gfn.stmts():
+                if st_['k'] == 'assign' and 'p' in st_['pl']:
+                    last = st_['pl']['p'][-1]
+                    if last['k'] == 'field' and last.get('n') == 'evaluation_stack' and st_['rv']['k'] == 'use':
+                        if any('jarray_to_runtime_obj_list' in a for a in tr.prov(gfn, st_['rv']['op'])):
+                            whole.append(gfn.loc(bb, si))
+        pushes = [bb for gfn in prog.with_closures(ljo) for bb, t in gfn.calls()
+                  if callee_short(t) == 'StoryState::push_evaluation_stack']
+        chk.decide(R2a, chk.key(R2a, 'eval-stack-pushed'), not whole and bool(pushes),
+                   'the loaded values go through push_evaluation_stack',
+                   'load_json_obj assigns the decoded evaluation stack as a whole: lists parked there are restored '
+                   'without their origins (list + int then yields the empty list)', whole[0] if whole else ljo.loc(0))
+    ve = prog.fn('VariablesState::val_equal')
+    if chk.anchor(R2a, 'VariablesState::val_equal', ve):
+        chk.decide(R2a, chk.key(R2a, 'default-elision-compares-origins'),
+                   any(callee_short(t) == 'InkList::get_origin_names' for gfn in prog.with_closures(ve)
+                       for _, t in gfn.calls()),
+                   'val_equal consults get_origin_names for lists',
+                   'val_equal compares lists by their items only: an empty list that belongs to other lists than the '
+                   'default value is elided from the save and comes back without its origins', ve.loc(0))
+    wil = prog.fn('json_write::write_ink_list')
+    if chk.anchor(R2a, 'json_write::write_ink_list', wil):
+        reads_cache = [gfn.loc(bb, si) for gfn in prog.with_closures(wil) for bb, si, st_ in gfn.stmts()
+                       if st_['k'] == 'assign' and any(
+                           pe['k'] == 'field' and pe.get('n') == 'origins' and 'InkList' in pe.get('adt', '')
+                           for pl in ([st_['rv'].get('pl')] if 'pl' in st_['rv'] else []) +
+                           ([st_['rv']['op']['pl']] if st_['rv'].get('op', {}).get('k') in ('copy', 'move') else [])
+                           for pe in (pl or {}).get('p', []))]
+        chk.decide(R2a, chk.key(R2a, 'origins-from-names-only'), not reads_cache,
+                   'write_ink_list does not read the resolved-origins cache',
+                   'write_ink_list reads InkList::origins: the cache can hold the lists of an earlier value, which the '
+                   'running story never consults, so the loaded list belongs to more lists than the saved one',
+                   reads_cache[0] if reads_cache else wil.loc(0))
 
     # ---- 2b. writer loops are total
     R4 = 'C02.writer-loops-total'
